@@ -1,5 +1,6 @@
 from vfw.spec import Unit, Fn, Type, Impl, C, Loop, Rewrite, Insert
 from units.contracts_report import report_fns, F as RF
+from units import contracts_walker as cw
 
 F = "src/expr/parser.rs"
 FE = "src/expr/expression.rs"
@@ -11,29 +12,12 @@ PI = "<'a, 'src> ExpressionParser<'a, 'src>"
 WI = "<'src> Walker<'src>"
 P = ["C05", "C19", "C03"]
 
-# ---- assumed contracts of the token walker (stream model, see skeleton) and of the leaf scanners
-SAME_W = "*final(self) == *old(self)"
-TAKEN = "final(self).stream() == tl(old(self).stream()) && final(self).src() == old(self).src()"
-w_maybe_expect = Fn(FW, "maybe_expect", impl=WI, slot="syntax", mode="stub", ret="res", key="Walker::maybe_expect",
-    requires=[C("a_useful_kind", "!ignorable(kind)")],
-    ensures=[C("takes_the_next_useful_token_iff_it_is_of_that_kind",
-               "(match res { Some(t) => hd_is(old(self).stream(), kind) && t == old(self).stream()[0].tok && %s, None => !hd_is(old(self).stream(), kind) && %s })" % (TAKEN, SAME_W))])
-w_expect = Fn(FW, "expect", impl=WI, slot="syntax", mode="stub", ret="res", key="Walker::expect",
-    requires=[C("a_useful_kind", "!ignorable(kind)")],
-    ensures=[C("takes_the_token_or_reports_at_the_cursor",
-               "(match res { Ok(t) => hd_is(old(self).stream(), kind) && t == old(self).stream()[0].tok && %s && *final(report) == *old(report),"
-               " Err(_) => !hd_is(old(self).stream(), kind) && %s && final(report).msgs() == old(report).msgs() + 1 && crate::expr::err_span(final(report)) == old(self).cursor_span() })" % (TAKEN, SAME_W))])
-w_next_linebreak = Fn(FW, "next_linebreak", impl=WI, slot="syntax", mode="stub", ret="res", key="Walker::next_linebreak",
-    ensures=[C("a_line_break_comes_first", "res is Some == hd_lb(self.stream())"), C("the_text_is_in_memory", "self.stream().len() < usize::MAX")])
-w_maybe_expect_linebreak = Fn(FW, "maybe_expect_linebreak", impl=WI, slot="syntax", mode="stub", ret="res", key="Walker::maybe_expect_linebreak",
-    ensures=[C("takes_one_line_break", "res is Some == hd_lb(old(self).stream()) && final(self).src() == old(self).src() && (if res is Some { final(self).stream() == dec_lb(old(self).stream()) } else { %s })" % SAME_W)])
-w_next_useful_is = Fn(FW, "next_useful_is", impl=WI, slot="syntax", mode="stub", ret="res", key="Walker::next_useful_is",
-    ensures=[C("peeks", SAME_W + " && (nth == 0 && !ignorable(kind) ==> res == hd_is(old(self).stream(), kind))")])
-w_next_nth_useful = Fn(FW, "next_nth_useful_token", impl=WI, slot="syntax", mode="stub", ret="res", key="Walker::next_nth_useful_token",
-    ensures=[C("peeks", "nth == 0 && self.stream().len() > 0 ==> res == self.stream()[0].tok")])
-w_cursor_span = Fn(FW, "get_cursor_span", impl=WI, slot="syntax", mode="stub", ret="res", key="Walker::get_cursor_span",
-    ensures=[C("the_cursor", "res == self.cursor_span()")])
+# ---- assumed contracts of the token walker (stream model, see skeleton; proved for the real walker in U-walker)
+_w = cw.walker_fns("stub", "syntax")
+w_maybe_expect, w_expect, w_next_linebreak, w_maybe_expect_linebreak = _w["maybe_expect"], _w["expect"], _w["next_linebreak"], _w["maybe_expect_linebreak"]
+w_next_useful_is, w_next_nth_useful, w_cursor_span = _w["next_useful_is"], _w["next_nth_useful_token"], _w["get_cursor_span"]
 w_span_excerpt = Fn(FW, "get_span_excerpt", impl=WI, slot="syntax", mode="stub", ret="res", key="Walker::get_span_excerpt",
+    requires=[cw.INV_PRE],
     ensures=[C("the_text_under_the_span", "res@ == text_at(self.src(), span)")])
 x_bigint = Fn(FX, "excerpt_as_bigint", slot="syntax", mode="stub", ret="res", key="excerpt_as_bigint",
     ensures=[C("number", "(match res { Ok(v) => number_of(span, excerpt@) == Some(v), Err(_) => number_of(span, excerpt@) is None })"),
@@ -53,11 +37,11 @@ r_dedup = Fn(RF, "message_with_parents_dedup", impl="Report", slot="diagn", mode
 # ---- the parser
 def sp(name, *args):
     return "%s(src_of(*old(self)), %sws_of(*old(self)), d_of(*old(self)))" % (name, "".join(a + ", " for a in args))
-DEPTH = C("nesting_within_the_limit", "old(self).recursion_depth <= 50", ["C19"])
+DEPTH = C("nesting_within_the_limit", "old(self).recursion_depth <= 50 && old(self).walker.inv()", ["C19"])
 def out(spec, props=P):
     return C("agrees_with_the_reference_grammar", "outcome(*old(self), *final(self), res, %s)" % spec, props)
 def closure(spec_on_s):
-    return ("|s: &mut ExpressionParser<'a, 'src>| -> (r: Result<Expr, ()>)\n            requires old(s).recursion_depth <= 50\n"
+    return ("|s: &mut ExpressionParser<'a, 'src>| -> (r: Result<Expr, ()>)\n            requires old(s).recursion_depth <= 50 && old(s).walker.inv()\n"
             "            ensures outcome(*old(s), *final(s), r, %s)\n       " % spec_on_s, "")
 def sps(name, *args):
     return "%s(src_of(*old(s)), %sws_of(*old(s)), d_of(*old(s)))" % (name, "".join(a + ", " for a in args))
@@ -71,6 +55,7 @@ def pfn(name, spec, mode="verify", **kw):
               attrs=["#[verifier::exec_allows_no_decreases_clause]"] if mode == "verify" else [], **kw)
 
 check_limit = Fn(F, "check_recursion_limit", impl=PI, impl_header=PI, slot="expr", ret="res", key="ExpressionParser::check_recursion_limit", props=["C19", "C03"],
+    requires=[C("walker_invariant", "old(self).walker.inv()", ["C03"])],
     ensures=[C("limit_50", "res is Ok <==> old(self).recursion_depth <= 50", ["C19"]),
              C("loud_and_nothing_else_changes", "final(self).recursion_depth == old(self).recursion_depth && *final(self).walker == *old(self).walker"
                " && mut_ref_future(final(self).walker) == mut_ref_future(old(self).walker) && mut_ref_future(final(self).report) == mut_ref_future(old(self).report)"
@@ -78,7 +63,7 @@ check_limit = Fn(F, "check_recursion_limit", impl=PI, impl_header=PI, slot="expr
     rewrites=MODPATH)
 parse_expr = pfn("parse_expr", sp("sp_expr"))
 TABLE_OK = "forall|i: int| 0 <= i < ops@.len() ==> !ignorable((#[trigger] ops@[i]).0)"
-INNER_REQ = "forall|p: &mut ExpressionParser<'a, 'src>| (*p).recursion_depth <= 50 ==> #[trigger] call_requires(parse_inner, (p,))"
+INNER_REQ = "forall|p: &mut ExpressionParser<'a, 'src>| (*p).recursion_depth <= 50 && (*p).walker.inv() ==> #[trigger] call_requires(parse_inner, (p,))"
 def inner_ens(spec_on_p):
     return "forall|p: &mut ExpressionParser<'a, 'src>, r: Result<Expr, ()>| #[trigger] call_ensures(parse_inner, (p,), r) ==> outcome(*p, *final(p), r, %s)" % spec_on_p
 def spp(name, *args):
@@ -88,10 +73,10 @@ def spp(name, *args):
 def op_search(k, table):
     return Loop(invariant_except_break=[
         C("no_earlier_entry_matches", "op_match is None && find_op(ops@, hd_kind(verif_ws), 0) == find_op(ops@, hd_kind(verif_ws), verif_next_%d as int)" % k),
-        C("nothing_taken_yet", "*self.walker == verif_w0 && self.walker.stream() == verif_ws"),
+        C("nothing_taken_yet", "*self.walker == verif_w0 && self.walker.stream() == verif_ws && verif_w0.inv()"),
     ], invariant=[
         C("cursor", "verif_next_%d <= verif_vec_%d@.len() && verif_vec_%d@ == ops@ && ops@ == %s" % (k, k, k, table)),
-        C("frame", "self.recursion_depth == verif_depth && *self.report == verif_report && mut_ref_future(self.walker) == verif_fw && mut_ref_future(self.report) == verif_fr"),
+        C("frame", "self.walker.inv() && self.recursion_depth == verif_depth && *self.report == verif_report && mut_ref_future(self.walker) == verif_fw && mut_ref_future(self.report) == verif_fr"),
     ], ensures=[
         C("the_first_matching_entry_is_taken", "(match op_match { Some(m) => verif_ws.len() > 0 && find_op(ops@, hd_kind(verif_ws), 0) == Some(m.1) && m.0 == verif_ws[0].tok.span && self.walker.stream() == tl(verif_ws) && self.walker.src() == verif_w0.src(),"
           " None => find_op(ops@, hd_kind(verif_ws), 0) is None && *self.walker == verif_w0 })"),
@@ -124,12 +109,12 @@ binary_ops = pfn("parse_binary_ops", sp("sp_bin", "level_of(ops@)"),
              Insert("let mut op_match: Option<(Span, BinaryOp)> = None;", SEARCH_GHOSTS, where="before")],
     loops={1: Loop(invariant=[
                C("the_chain_so_far", "sp_chain(src_of(*old(self)), verif_k, view_of(lhs), self.walker.stream(), d_of(*old(self))) == sp_bin(src_of(*old(self)), verif_k, ws_of(*old(self)), d_of(*old(self)))"),
-               C("frame", "verif_k == level_of(ops@) && 0 <= verif_k < 10 && bin_table(verif_k) == ops@ && self.walker.src() == src_of(*old(self)) && self.recursion_depth == old(self).recursion_depth && old(self).recursion_depth <= 50 && self.walker.stream().len() < ws_of(*old(self)).len() && self.report.msgs() >= old(self).report.msgs()"
+               C("frame", "verif_k == level_of(ops@) && 0 <= verif_k < 10 && bin_table(verif_k) == ops@ && self.walker.inv() && self.walker.src() == src_of(*old(self)) && self.recursion_depth == old(self).recursion_depth && old(self).recursion_depth <= 50 && self.walker.stream().len() < ws_of(*old(self)).len() && self.report.msgs() >= old(self).report.msgs()"
                           " && mut_ref_future(self.walker) == mut_ref_future(old(self).walker) && mut_ref_future(self.report) == mut_ref_future(old(self).report)"),
                C("closure_callable", INNER_REQ), C("inner_is_the_next_tighter_level", inner_ens(spp("sp_bin", "verif_k + 1"))),
            ], ensures=[C("the_chain_is_complete", "sp_bin(src_of(*old(self)), verif_k, ws_of(*old(self)), d_of(*old(self))) == PRes::Good(view_of(lhs), self.walker.stream())")]),
            2: op_search(2, "bin_table(verif_k)")})
-FRAME = ("self.walker.src() == src_of(*old(self)) && self.recursion_depth == old(self).recursion_depth && old(self).recursion_depth <= 50 && self.report.msgs() >= old(self).report.msgs()"
+FRAME = ("self.walker.inv() && self.walker.src() == src_of(*old(self)) && self.recursion_depth == old(self).recursion_depth && old(self).recursion_depth <= 50 && self.report.msgs() >= old(self).report.msgs()"
          " && mut_ref_future(self.walker) == mut_ref_future(old(self).walker) && mut_ref_future(self.report) == mut_ref_future(old(self).report)")
 SRC = "src_of(*old(self))"
 D = "d_of(*old(self))"
@@ -143,7 +128,7 @@ unary_ops = pfn("parse_unary_ops", sp("sp_unary"),
     for_to_while=[1],
     loops={1: Loop(before="\t\tproof { lemma_tables_useful(); assert(ops@ =~= unary_table()); }", invariant=[
         C("no_earlier_entry_matches", "verif_next_1 <= verif_vec_1@.len() && verif_vec_1@ == ops@ && ops@ == unary_table() && find_op(ops@, hd_kind(%s), 0) == find_op(ops@, hd_kind(%s), verif_next_1 as int)" % (WS0, WS0)),
-        C("nothing_taken_yet", "*self.walker == *old(self).walker && *self.report == *old(self).report && self.recursion_depth == old(self).recursion_depth && old(self).recursion_depth <= 50 && mut_ref_future(self.walker) == mut_ref_future(old(self).walker) && mut_ref_future(self.report) == mut_ref_future(old(self).report)"),
+        C("nothing_taken_yet", "old(self).walker.inv() && *self.walker == *old(self).walker && *self.report == *old(self).report && self.recursion_depth == old(self).recursion_depth && old(self).recursion_depth <= 50 && mut_ref_future(self.walker) == mut_ref_future(old(self).walker) && mut_ref_future(self.report) == mut_ref_future(old(self).report)"),
         C("closure_callable", INNER_REQ), C("inner_is_the_call_level", inner_ens(spp("sp_call"))),
     ], decreases="verif_vec_1@.len() - verif_next_1")})
 VIEWS_PUSH = "proof { lemma_views_push(%s, %s); }"
@@ -199,11 +184,13 @@ new_parser = Fn(F, "new", impl=PI, impl_header=PI, slot="expr", ret="res", key="
     ensures=[C("a_fresh_parser_over_the_same_report_and_walker", "*res.report == *old(report) && *res.walker == *old(walker) && mut_ref_future(res.report) == mut_ref_future(report) && mut_ref_future(res.walker) == mut_ref_future(walker) && res.recursion_depth == 0")])
 TOP = "sp_expr(old(walker).src(), old(walker).stream(), 0)"
 parse_top = Fn(F, "parse", slot="expr", ret="res", key="parser::parse", props=P,
-    ensures=[C("agrees_with_the_reference_grammar", "(match res { Ok(e) => %s == PRes::Good(view_of(e), final(walker).stream()), Err(_) => %s is Bad && final(report).msgs() > old(report).msgs() }) && final(report).msgs() >= old(report).msgs()" % (TOP, TOP), P)],
+    requires=[C("walker_invariant", "old(walker).inv()", ["C03"])],
+    ensures=[C("agrees_with_the_reference_grammar", "final(walker).inv() && (match res { Ok(e) => %s == PRes::Good(view_of(e), final(walker).stream()), Err(_) => %s is Bad && final(report).msgs() > old(report).msgs() }) && final(report).msgs() >= old(report).msgs()" % (TOP, TOP), P)],
     rewrites=MODPATH)
 report_new = Fn(RF, "new", impl="Report", slot="diagn", mode="stub", ret="res", key="Report::new")
 parse_optional = Fn(F, "parse_optional", slot="expr", ret="res", key="parser::parse_optional", props=["C05", "C19"],
-    ensures=[C("agrees_with_the_reference_grammar", "(match res { Some(e) => %s == PRes::Good(view_of(e), final(walker).stream()), None => %s is Bad })" % (TOP, TOP), ["C05", "C19"])],
+    requires=[C("walker_invariant", "old(walker).inv()", ["C03"])],
+    ensures=[C("agrees_with_the_reference_grammar", "final(walker).inv() && (match res { Some(e) => %s == PRes::Good(view_of(e), final(walker).stream()), None => %s is Bad })" % (TOP, TOP), ["C05", "C19"])],
     rewrites=MODPATH)
 
 UNIT = Unit(
